@@ -2,8 +2,8 @@
 and honour their contracts.
 
 Theorems: coq/Props/C17.v over coq/Model/Veneers.v (every builder rule, option action, selector,
-the YAML-level loader and Rewriter.ApplyTo; shared *Argument cells and Args arrays are labelled so
-that writes through shallow copies reach every holder, as in Go).
+the YAML-level loader and Rewriter.ApplyTo, Path.Append and MakePath; purely functional since /repo
+a8e18fa + 0b5ce6d: no rule writes through a cell that shallow copies share any more).
 Tie to the code: (a) translator — the members of yaml.BuilderRule / yaml.OptionRule and the order
 in which AsRewriteRule dispatches them are regenerated from internal/yaml/builder.go, option.go
 into coq/Gen/VeneerRegistry_gen.v and checked against the model's dispatch; (b) correspondence —
@@ -25,10 +25,9 @@ COQ_TARGETS = ["Props/C17.vo"]
 PROPS = "Props/C17.v"
 TRUSTED = [
     "hand-written Gallina models of internal/veneers/builder/rules.go, selectors.go, option/actions.go, rules.go, selectors.go, veneers/types.go, rewrite/rewrite.go, yaml/builder.go, option.go, veneers.go and ast/builder.go MakePath/DeepCopy (coq/Model/Veneers.v); VeneerTrail and the Debug rules built on it are not modelled",
-    "aliasing: only the two kinds of cells the code writes in place are labelled (pointee of Assignment.Value.Argument, backing array of Option.Args); writes into spare slice capacity shared between two holders (append on Constructor.Assignments/Args, Properties, Comments, Assignments) are NOT modelled",
-    "ComposeBuilders ranges over a Go map: with a compose rule present the builder lists are compared as multisets",
+    "sharing: options and assignments copied shallowly (merge_into, compose, promote, add_option, add_assignment) share *Argument cells and Args arrays, but no rule writes through them any more (a8e18fa, 0b5ce6d): the model is functional and cog's output must EQUAL the model's; writes into spare slice capacity shared between two holders (append on Comments, Assignments, Options) are NOT modelled",
     "harness harness/verifh_ven (printers ir.go, builders.go, veneers.go; own YAML decode of the rule files, only to print what they say)",
-    "translator regen() in checks/c17.py (regular expressions over internal/yaml/builder.go, option.go)",
+    "translator regen() in checks/c17.py (regular expressions over internal/yaml/builder.go, option.go and the body of Path.Append in internal/ast/builder.go)",
 ]
 ASSUMPTIONS = [
     "identifiers are ASCII (strings.EqualFold, x/text title-casing)",
@@ -60,10 +59,31 @@ def _dispatch(src, struct):
     return re.findall(r"if rule\.(\w+) != nil \{", m.group(0))
 
 
+def _append_class(src):
+    """how does Path.Append build its result?  "copying": every append goes into a slice declared in the
+    function itself and that slice is returned; "aliasing": some append extends (or the function returns)
+    the receiver or the parameter; "unknown": anything else (treated as unproved by the Coq side)"""
+    m = re.search(r"func \((\w+) Path\) Append\((\w+) Path\) Path \{(.*?)\n\}\n", src, re.S)
+    if not m:
+        return "unknown"
+    recv, param, body = m.group(1), m.group(2), m.group(3)
+    local = set(re.findall(r"\bvar (\w+) Path\b", body)) | set(re.findall(r"\b(\w+) := make\(", body)) \
+        | set(re.findall(r"\b(\w+) := (?:Path|\[\]PathItem)\{\}", body))
+    local -= {recv, param}
+    appends = re.findall(r"\bappend\((\w+)\s*,", body)
+    rets = re.findall(r"\breturn\s+([^\n]+)", body)
+    if any(a in (recv, param) for a in appends) or any(re.match(r"(%s|%s)\b" % (recv, param), r.strip()) for r in rets):
+        return "aliasing"
+    if rets and all(r.strip() in local for r in rets) and all(a in local for a in appends) and (appends or "copy(" in body):
+        return "copying"
+    return "unknown"
+
+
 def regen(ctx):
     ydir = os.path.join(core.REPO, "internal", "yaml")
     out = ["(* GENERATED by checks/c17.py regen() from internal/yaml/builder.go and option.go: the members of",
-           "   BuilderRule / OptionRule (yaml key, declaration order) and the order AsRewriteRule tests them. *)",
+           "   BuilderRule / OptionRule (yaml key, declaration order) and the order AsRewriteRule tests them;",
+           "   from internal/ast/builder.go: how Path.Append builds its result. *)",
            "From Coq Require Import List String.", "Import ListNotations.", "Local Open Scope string_scope.", ""]
     for fname, struct, ident in (("builder.go", "BuilderRule", "builder_rule"), ("option.go", "OptionRule", "option_rule")):
         try:
@@ -76,6 +96,12 @@ def regen(ctx):
         out.append("Definition %s_members : list string := [%s]." % (ident, "; ".join('"%s"' % k for _, k in mem)))
         out.append("Definition %s_dispatch : list string := [%s]." % (ident, "; ".join('"%s"' % key.get(f, "?" + f) for f in dis)))
         out.append("")
+    try:
+        bsrc = open(os.path.join(core.REPO, "internal", "ast", "builder.go")).read()
+    except OSError:
+        bsrc = ""
+    out.append('Definition path_append_class : string := "%s".' % _append_class(bsrc))
+    out.append("")
     core.write_if_changed(os.path.join(core.COQ, "Gen", "VeneerRegistry_gen.v"), "\n".join(out))
 
 
@@ -176,8 +202,8 @@ def run(ctx, verdict, replay=None, model_ok=True):
     pf_wt = [i for i in ok_idx if has(i, 8)]
     pf_fr = [i for i in ok_idx if has(i, 16)]
     pf_ct = [i for i in ok_idx if has(i, 32)]
-    ctx.log("coq evaluated %d cases: mismatch=%d interference=%d wt=%d frame=%d contract=%d last-duplicate=%d last-compose=%d" % (
-        len(ok_idx), len(mm), sum(has(i, 2) for i in ok_idx), len(pf_wt), len(pf_fr), len(pf_ct),
+    ctx.log("coq evaluated %d cases: mismatch=%d wt=%d frame=%d contract=%d last-duplicate=%d last-compose=%d" % (
+        len(ok_idx), len(mm), len(pf_wt), len(pf_fr), len(pf_ct),
         sum(has(i, 1024) for i in ok_idx), sum(has(i, 2048) for i in ok_idx)))
 
     # property failures on the implementation's own output; smallest case of each signature first
@@ -248,8 +274,6 @@ def run(ctx, verdict, replay=None, model_ok=True):
         "loaded_via": dict(via_hist),
         "rule_kind_histogram": dict(sorted(rule_hist.items())),
         "single_rule_runs": sum(has(i, 64) for i in ok_idx),
-        "runs_where_a_write_reached_a_sharer": sum(has(i, 2) for i in ok_idx),
-        "of_which_observably_different_from_unshared_semantics": sum(has(i, 512) for i in ok_idx),
         "panic_outcomes_by_rule_present_C04": dict(sorted(panic_rules.items())),
         "cases_not_judged": {k: v for k, v in st.items() if k != "OK"},
         "mismatches_model_vs_impl": len(mm),
